@@ -8,9 +8,14 @@
 From Coq Require Import FMapPositive.
 From FunV Require Import Base.Tac Model.Pipelines.
 
-Inductive case := C01Case (id construct workers cap : Z) (input delivered : list Z) (ok : bool).
+(* C01Shared: [stages] fan-out stages drained ONE channel-backed iterator of n distinct values; what is
+   carried is how many values nobody got / extra deliveries / values outside the input (the volume cases
+   have 10^5 values and more: the multiset comparison itself is done by the driver) *)
+Inductive case :=
+| C01Case (id construct workers cap : Z) (input delivered : list Z) (ok : bool)
+| C01Shared (id stages kind workers n lost dup invented : Z) (ok : bool).
 
-Definition case_id (c : case) : Z := match c with C01Case id _ _ _ _ _ _ => id end.
+Definition case_id (c : case) : Z := match c with C01Case id _ _ _ _ _ _ => id | C01Shared id _ _ _ _ _ _ _ _ => id end.
 
 Fixpoint countZ (x : Z) (l : list Z) : nat :=
   match l with [] => 0 | y :: r => (if Z.eqb x y then 1 else 0) + countZ x r end.
@@ -76,8 +81,19 @@ Definition abort_ok (w : nat) (input : list Z) (rot : nat) : bool :=
   quiescentb N s && (leaks N s =? 0) && (stuck_users N s =? 0)
   && permb (s_deliv s ++ s_drop s ++ concat (s_srcs s) ++ concat (map c_buf (s_chans s))) input.
 
+(* the model of "several stages read one concurrency-safe input": every stage's read of the input is ONE
+   atomic ReadOne, i.e. the stages are [stages] concurrent ReadOne callers on the channel-backed iterator
+   (readone_net); run on a small instance it must deliver everything, dropping nothing *)
+Definition shared_ok (stages n : nat) (rot : nat) : bool :=
+  let input := map Z.of_nat (seq 0 (Nat.min n 12)) in
+  let N := readone_net stages in
+  let s := run N (60 * (length input + stages + 4) + 100) rot false None (readone_init stages 2 input) in
+  quiescentb N s && (stuck_users N s =? 0) && match s_drop s with [] => true | _ => false end && permb (s_deliv s) input.
+
 Definition check_case (c : case) : bool :=
   match c with
+  | C01Shared id stages kind workers n lost dup invented ok =>
+      ok && Z.eqb lost 0 && Z.eqb dup 0 && Z.eqb invented 0 && shared_ok (Z.to_nat stages) (Z.to_nat n) (Z.to_nat id mod 5)
   | C01Case id construct workers cap input delivered ok =>
       let w := Z.to_nat workers in
       if Z.eqb construct 17 then ok && subb delivered input && abort_ok w input (Z.to_nat id mod 5) else
